@@ -37,6 +37,7 @@ class Exec(ExprMixin, CallMixin, StmtMixin):
     delitem_handlers = {}
     getattr_dyn_handlers = {}
     hash_handlers = {}
+    fstring_handler = None
     global_values = {}
     global_calls = {}
     type_aliases = {}
